@@ -339,6 +339,7 @@ package server
 //@   ensures C15.op.unset: implies(calls(NewLockManagerDataUnsetData) == 1 && calls(ProcessLockData) == 0, isnil(curValue(self)) && self.currentData != nil && self.currentData.commandType == 1)
 //@   ensures C15.op.consumed: command.Data == nil || calls(ProcessLockData) >= 1
 //@   loop#1 invariant 0 <= index && index <= len(buf) && len(buf) < 0x40000000
+//@   loop#2 invariant i >= 6 && i <= len(self.currentData.data) + 65543 && self.currentData != nil
 //@   at call NewLockManagerData assert C15.op.set: implies(arg1 == 0, arg0 == lockCommandData.Data)
 //@   at call NewLockManagerData assert C15.op.append-first: implies(arg1 == 3 && !hasValue(currentLockData), arg0 == lockCommandData.Data && arg0[4] == 0)
 //@   at call NewLockManagerData assert C15.op.append: implies(arg1 == 3 && hasValue(currentLockData), len(arg0) == len(currentLockData.data) + len(lockCommandData.Data) - voffC(lockCommandData) && arg0[4] == 0 && arg0[5] == currentLockData.data[5] && forall(k, 6, len(currentLockData.data), arg0[k] == currentLockData.data[k]) && forall(k, 0, len(lockCommandData.Data) - voffC(lockCommandData), arg0[len(currentLockData.data) + k] == lockCommandData.Data[voffC(lockCommandData) + k]))
